@@ -180,3 +180,42 @@ pub fn check_append(case: &str) -> Result<(), String> {
         }
     }
 }
+
+// ---------------- join (C17) -------------------------------------------------------------------
+fn disp_resolved(t: &Unifiable, ss: &SS) -> String {
+    match resolve(t, ss) { Some(g) => format!("{}", g), None => format!("{}", t) }
+}
+pub fn enum_join(_s: u64) -> Vec<String> {
+    let mk = |pairs: &[(usize, Unifiable)]| { let mut ss: SS = vec![]; for (i, t) in pairs { while ss.len() <= *i { ss.push(None); } ss[*i] = Some(Rc::new(t.clone())); } ss };
+    let mut v: Vec<(Vec<Unifiable>, SS)> = vec![];
+    v.push((vec![atom("coffee"), atom(","), atom("tea"), atom("or"), atom("juice"), atom("?")], vec![]));
+    v.push((vec![var(1, "$X"), atom("tea")], mk(&[(1, atom("coffee"))])));
+    v.push((vec![mk_list(&[atom("a"), atom("b")], None), atom("!")], vec![]));
+    v.push((vec![mk_list(&[var(1, "$X"), atom("tea")], None), atom("?")], mk(&[(1, atom("coffee"))])));   // bound variable as list element
+    v.push((vec![var(2, "$L"), atom(".")], mk(&[(1, atom("coffee")), (2, mk_list(&[var(1, "$X"), atom("tea")], None))])));
+    v.push((vec![mk_list(&[atom("a")], Some(var(1, "$T")))], mk(&[(1, mk_list(&[atom("b"), atom(",")], None))])));
+    v.push((vec![SInteger(3), SFloat(1.5), atom("x")], vec![]));
+    v.iter().map(|(ts, ss)| format!("ss={};in={}", ser_ss(ss), ser_list(ts))).collect()
+}
+pub fn check_join(case: &str) -> Result<(), String> {
+    let ss = Rc::new(de_ss(field(case, "ss")));
+    let ins = de_list(field(case, "in"));
+    // expected, from the statement: resolved values of the arguments and of list elements
+    let mut words: Vec<String> = vec![];
+    for a in &ins {
+        match resolve(a, &ss) {
+            Some(g) if matches!(g, SLinkedList{..}) => match elems_through(&g, &ss, 0) { Some(es) => for e in es { words.push(disp_resolved(&e, &ss)); }, None => return Ok(()) },
+            Some(g) => words.push(format!("{}", g)),
+            None => words.push(format!("{}", a)),
+        }
+    }
+    let mut exp = String::new();
+    let mut first = true;
+    for w in &words {
+        let punct = w == "," || w == "." || w == "?" || w == "!";
+        if punct || first { exp.push_str(w); } else { exp.push(' '); exp.push_str(w); }
+        first = false;
+    }
+    let got = evaluate_join(&ins, &ss);
+    match got { Atom(s) if s == exp => Ok(()), other => Err(format!("join gave {} but the documented text is {:?}", ser(&other), exp)) }
+}
